@@ -25,8 +25,9 @@ def mk_neuron(kind, n, B):
         return neural.LIF((n,), DT, rest_v=-60.0, reset_v=-65.0, thresh_v=-50.0, refrac_t=2.0, time_constant=20.0, batch_size=B)
     if kind == "alif":
         return neural.ALIF((n,), DT, rest_v=-60.0, reset_v=-65.0, thresh_eq_v=-50.0, refrac_t=1.0, tc_membrane=20.0, tc_adaptation=10.0, spike_increment=0.5, batch_size=B)
-    if kind == "qif":
-        return neural.QIF((n,), DT, rest_v=-60.0, crit_v=-50.0, affinity=0.04, reset_v=-65.0, thresh_v=30.0, refrac_t=0.0, time_constant=1.0, batch_size=B)
+    if kind in ("qif", "qif0"):
+        # "qif0": no refractory period - the layer then reads the wrong `spike` attribute (known finding C03-spike-attr-refrac0, seen through the wiring)
+        return neural.QIF((n,), DT, rest_v=-60.0, crit_v=-50.0, affinity=0.04, reset_v=-65.0, thresh_v=30.0, refrac_t=(0.0 if kind == "qif0" else 1.0), time_constant=1.0, batch_size=B)
     raise AssertionError(kind)
 
 
@@ -158,7 +159,7 @@ def h_biclique(e, cfg):
 def h_recurrent(e, cfg):
     import inferno.neural as neural
     B, nin, nff, nfb = cfg["B"], 3, 2, 2
-    e.tag(layer="recurrent", fbsyn=cfg["fbsyn"], fbbias=cfg["fbbias"])
+    e.tag(layer="recurrent", fbsyn=cfg["fbsyn"], fbbias=cfg["fbbias"], fbneuron=cfg["fbneuron"])
     P = Params(e)
 
     def comps():
@@ -256,6 +257,7 @@ def checks(tier):
            for nc, nn in (((2, 2), (1, 2), (2, 1)) if th else ((2, 2),))]
     rec = [dict(B=B, fbsyn=s, fbbias=b, fbneuron=fn, T=(3 if th else 3)) for B in ((1, 2) if th else (1,)) for s in ("delta", "single") for b in (False, True)
            for fn in (("lif", "qif") if th else ("lif",))]
+    rec.append(dict(B=1, fbsyn="delta", fbbias=False, fbneuron="qif0", T=3))
     clr = []
     for layer in ("serial", "biclique", "recurrent"):
         for syn in ("delta", "single", "double"):
